@@ -4,7 +4,7 @@
    plus error / warning / abort reports.  Quiet = no error event; snd (walk ...) = the run was aborted. *)
 From Coq Require Import List Arith NArith Lia Bool.
 Import ListNotations.
-Require Import Walker WalkerFaults WalkerErrors Hooks Hooks2.
+Require Import Walker WalkerFaults WalkerErrors Hooks Hooks2 RunStatus.
 
 (* exit 0 (not aborted, no error reported) => every node that is there, unfaulted, reached through unfaulted
    directories and allowed at every prefix is in the archive *)
@@ -63,6 +63,17 @@ Check C08_unprepared_item_fails_run : forall its k j,
   fst (run_items 0 its) = concat (map (fun j => fst (one_item (0 + j) (nth j its dflt))) (seq 0 k)) -> j < k ->
   it_tree (nth j its dflt) = None -> run_ok its = false.
 
+(* the exit status: retention (gc_groups) can only turn a success into a failure - exit 0 implies that the creation of the backup
+   instance, the walk and the listing all reported no problem, whatever was or was not due for deletion *)
+Theorem C08_status_ok_implies_walk_ok : forall c w l o d, backup_status c w l o d = true -> c = true /\ w = true /\ l = true.
+Proof. exact status_ok_implies_walk_ok. Qed.
+Check C08_status_ok_implies_walk_ok : forall c w l o d, backup_status c w l o d = true -> c = true /\ w = true /\ l = true.
+Theorem C08_walk_error_fails_run : forall c l o d, backup_status c false l o d = false.
+Proof. exact walk_error_fails_run. Qed.
+Check C08_walk_error_fails_run : forall c l o d, backup_status c false l o d = false.
+
 Print Assumptions C08_quiet_complete.
 Print Assumptions C08_quiet_no_error_fault.
 Print Assumptions C08_calm_quiet.
+Print Assumptions C08_status_ok_implies_walk_ok.
+Print Assumptions C08_walk_error_fails_run.
